@@ -651,6 +651,8 @@ class ttensor:
         -------
         Computed eigenvectors.
         """
+        if n not in range(self.ndims) or not 0 < r <= self.shape[n]:
+            assert False, "n must be a mode and r between 1 and the extent of mode n"
         # Compute inner product of all n-1 factors
         V = []
         for factor_idx, factor in enumerate(self.factor_matrices):
